@@ -176,4 +176,286 @@ theorem dot_map (Vs : List EVar) (a : Asg) (ts : List (Nat × Int)) :
     simp only [dot, List.map_cons, List.zipWith_cons_cons, List.sum_cons] at ih ⊢
     rw [ih]
 
+/-! ### list-level exactness of the sum and linear encoders -/
+
+theorem RepL.pos_of_below {Xs : List EVar} {n : Nat} (h : ∀ X ∈ Xs, X.Below n) : ∀ X ∈ Xs, 0 < X.base :=
+  fun X hX => (h X hX).1
+
+theorem stable_of_iff {β : Nat → Bool} {cls : Cnf} {nx : Nat} {P : Prop}
+    (h : ∀ β₂, AgreeBelow nx β β₂ → (cnfTrue β₂ cls = true ↔ P)) (hp : P) :
+    ∃ β₁, AgreeBelow nx β β₁ ∧ ∀ β₂, AgreeBelow nx β₁ β₂ → cnfTrue β₂ cls = true :=
+  ⟨β, AgreeBelow.refl _ _, fun β₂ hag => (h β₂ hag).2 hp⟩
+
+theorem encSumEq_mono (Xs : List EVar) (t : Int) (nx : Nat) : nx ≤ (encSumEq Xs t nx).2 := by
+  unfold encSumEq
+  split
+  · exact Nat.le_refl _
+  · split
+    · exact Nat.le_refl _
+    · split
+      · exact Nat.le_refl _
+      · exact encSumEqChain_mono _ _ _ _ _
+
+theorem encSumEq_sound {β : Nat → Bool} {Xs : List EVar} {xs : List Int} {t : Int} {nx : Nat}
+    (hpos : ∀ X ∈ Xs, 0 < X.base) (hnx : 0 < nx) (hr : RepL β Xs xs)
+    (h : cnfTrue β (encSumEq Xs t nx).1 = true) : xs.sum = t := by
+  have hb := RepL.sum_bounds hr
+  unfold encSumEq at h
+  match Xs, xs, hr with
+  | [], [], _ =>
+    simp only at h
+    by_cases ht : t = 0
+    · simp [ht]
+    · have : (t != 0) = true := by simpa using ht
+      simp [this, cnfTrue_empty_clause] at h
+  | X :: rest, x :: xs', hr =>
+    simp only at h
+    by_cases hchk : (decide (t < sumLb (X :: rest)) || decide (t > sumUb (X :: rest))) = true
+    · rw [if_pos hchk] at h; simp [cnfTrue_empty_clause] at h
+    · rw [if_neg hchk] at h
+      match rest, xs', hr with
+      | [], [], hr =>
+        simp only at h
+        have := (encEqConst_iff (hpos X List.mem_cons_self) hr.1 t).1 h
+        simp [this]
+      | Y :: rest', y :: ys, hr =>
+        simp only at h
+        have := encSumEqChain_sound rest' ys X Y x y t nx (hpos X List.mem_cons_self)
+          (hpos Y (List.mem_cons_of_mem _ List.mem_cons_self))
+          (fun Z hZ => hpos Z (List.mem_cons_of_mem _ (List.mem_cons_of_mem _ hZ))) hnx
+          hr.1.marks hr.2.1 hr.2.2 h
+        simp only [List.sum_cons]; omega
+
+theorem encSumEq_complete {β : Nat → Bool} {Xs : List EVar} {xs : List Int} {t : Int} {nx : Nat}
+    (hB : ∀ X ∈ Xs, X.Below nx) (hnx : 0 < nx) (hr : RepL β Xs xs) (hsum : xs.sum = t) :
+    ∃ β₁, AgreeBelow nx β β₁ ∧
+      ∀ β₂, AgreeBelow (encSumEq Xs t nx).2 β₁ β₂ → cnfTrue β₂ (encSumEq Xs t nx).1 = true := by
+  have hb := RepL.sum_bounds hr
+  unfold encSumEq
+  match Xs, xs, hr with
+  | [], [], _ =>
+    refine ⟨β, AgreeBelow.refl _ _, fun β₂ _ => ?_⟩
+    simp only [List.sum_nil] at hsum
+    simp [← hsum, cnfTrue_nil]
+  | X :: rest, x :: xs', hr =>
+    have hchk : ¬ (decide (t < sumLb (X :: rest)) || decide (t > sumUb (X :: rest))) = true := by
+      simp only [Bool.or_eq_true, decide_eq_true_eq]; omega
+    simp only [if_neg hchk]
+    match rest, xs', hr with
+    | [], [], hr =>
+      refine ⟨β, AgreeBelow.refl _ _, fun β₂ hag => ?_⟩
+      have hX := hB X List.mem_cons_self
+      simp only at hag ⊢
+      rw [encEqConst_iff hX.1 (hr.1.of_agree hX hag)]
+      simpa using hsum
+    | Y :: rest', y :: ys, hr =>
+      simp only
+      exact encSumEqChain_complete rest' ys β X Y x y t nx (hB X List.mem_cons_self)
+        (hB Y (List.mem_cons_of_mem _ List.mem_cons_self))
+        (fun Z hZ => hB Z (List.mem_cons_of_mem _ (List.mem_cons_of_mem _ hZ))) hnx
+        hr.1 hr.2.1 hr.2.2 (by simp only [List.sum_cons] at hsum; omega)
+
+theorem encSumLe_mono (Xs : List EVar) (t : Int) (nx : Nat) : nx ≤ (encSumLe Xs t nx).2 := by
+  unfold encSumLe
+  split
+  · exact Nat.le_refl _
+  · exact Nat.le_refl _
+  · exact encSumLeChain_mono _ _ _ _ _
+
+theorem encSumLe_sound {β : Nat → Bool} {Xs : List EVar} {xs : List Int} {t : Int} {nx : Nat}
+    (hpos : ∀ X ∈ Xs, 0 < X.base) (hnx : 0 < nx) (hr : RepL β Xs xs)
+    (h : cnfTrue β (encSumLe Xs t nx).1 = true) : xs.sum ≤ t := by
+  unfold encSumLe at h
+  match Xs, xs, hr with
+  | [], [], _ =>
+    simp only at h
+    by_cases ht : t < 0
+    · simp [ht, cnfTrue_empty_clause] at h
+    · simp; omega
+  | [X], [x], hr =>
+    simp only at h
+    have := (forbid1_iff (hpos X List.mem_cons_self) hr.1 _).1 h
+    simp at this; simp; omega
+  | X :: Y :: rest', x :: y :: ys, hr =>
+    simp only at h
+    have := encSumLeChain_sound rest' ys X Y x y t nx (hpos X List.mem_cons_self)
+      (hpos Y (List.mem_cons_of_mem _ List.mem_cons_self))
+      (fun Z hZ => hpos Z (List.mem_cons_of_mem _ (List.mem_cons_of_mem _ hZ))) hnx
+      hr.1.marks hr.2.1 hr.2.2 h
+    simp only [List.sum_cons]; omega
+
+theorem encSumLe_complete {β : Nat → Bool} {Xs : List EVar} {xs : List Int} {t : Int} {nx : Nat}
+    (hB : ∀ X ∈ Xs, X.Below nx) (hnx : 0 < nx) (hr : RepL β Xs xs) (hsum : xs.sum ≤ t) :
+    ∃ β₁, AgreeBelow nx β β₁ ∧
+      ∀ β₂, AgreeBelow (encSumLe Xs t nx).2 β₁ β₂ → cnfTrue β₂ (encSumLe Xs t nx).1 = true := by
+  unfold encSumLe
+  match Xs, xs, hr with
+  | [], [], _ =>
+    refine ⟨β, AgreeBelow.refl _ _, fun β₂ _ => ?_⟩
+    simp only [List.sum_nil] at hsum
+    have : ¬ t < 0 := by omega
+    simp [this, cnfTrue_nil]
+  | [X], [x], hr =>
+    refine ⟨β, AgreeBelow.refl _ _, fun β₂ hag => ?_⟩
+    have hX := hB X List.mem_cons_self
+    simp only at hag ⊢
+    rw [forbid1_iff hX.1 (hr.1.of_agree hX hag)]
+    simp at hsum; simp; omega
+  | X :: Y :: rest', x :: y :: ys, hr =>
+    simp only
+    exact encSumLeChain_complete rest' ys β X Y x y t nx (hB X List.mem_cons_self)
+      (hB Y (List.mem_cons_of_mem _ List.mem_cons_self))
+      (fun Z hZ => hB Z (List.mem_cons_of_mem _ (List.mem_cons_of_mem _ hZ))) hnx
+      hr.1 hr.2.1 hr.2.2 (by simp only [List.sum_cons] at hsum; omega)
+
+theorem encSumGe_mono (Xs : List EVar) (t : Int) (nx : Nat) : nx ≤ (encSumGe Xs t nx).2 := by
+  unfold encSumGe
+  split
+  · exact Nat.le_refl _
+  · exact Nat.le_refl _
+  · exact encSumGeChain_mono _ _ _ _ _
+
+theorem encSumGe_sound {β : Nat → Bool} {Xs : List EVar} {xs : List Int} {t : Int} {nx : Nat}
+    (hpos : ∀ X ∈ Xs, 0 < X.base) (hnx : 0 < nx) (hr : RepL β Xs xs)
+    (h : cnfTrue β (encSumGe Xs t nx).1 = true) : xs.sum ≥ t := by
+  unfold encSumGe at h
+  match Xs, xs, hr with
+  | [], [], _ =>
+    simp only at h
+    by_cases ht : t > 0
+    · simp [ht, cnfTrue_empty_clause] at h
+    · simp; omega
+  | [X], [x], hr =>
+    simp only at h
+    have := (forbid1_iff (hpos X List.mem_cons_self) hr.1 _).1 h
+    simp at this; simp; omega
+  | X :: Y :: rest', x :: y :: ys, hr =>
+    simp only at h
+    have := encSumGeChain_sound rest' ys X Y x y t nx (hpos X List.mem_cons_self)
+      (hpos Y (List.mem_cons_of_mem _ List.mem_cons_self))
+      (fun Z hZ => hpos Z (List.mem_cons_of_mem _ (List.mem_cons_of_mem _ hZ))) hnx
+      hr.1.marks hr.2.1 hr.2.2 h
+    simp only [List.sum_cons]; omega
+
+theorem encSumGe_complete {β : Nat → Bool} {Xs : List EVar} {xs : List Int} {t : Int} {nx : Nat}
+    (hB : ∀ X ∈ Xs, X.Below nx) (hnx : 0 < nx) (hr : RepL β Xs xs) (hsum : xs.sum ≥ t) :
+    ∃ β₁, AgreeBelow nx β β₁ ∧
+      ∀ β₂, AgreeBelow (encSumGe Xs t nx).2 β₁ β₂ → cnfTrue β₂ (encSumGe Xs t nx).1 = true := by
+  unfold encSumGe
+  match Xs, xs, hr with
+  | [], [], _ =>
+    refine ⟨β, AgreeBelow.refl _ _, fun β₂ _ => ?_⟩
+    simp only [List.sum_nil] at hsum
+    have : ¬ t > 0 := by omega
+    simp [this, cnfTrue_nil]
+  | [X], [x], hr =>
+    refine ⟨β, AgreeBelow.refl _ _, fun β₂ hag => ?_⟩
+    have hX := hB X List.mem_cons_self
+    simp only at hag ⊢
+    rw [forbid1_iff hX.1 (hr.1.of_agree hX hag)]
+    simp at hsum; simp; omega
+  | X :: Y :: rest', x :: y :: ys, hr =>
+    simp only
+    exact encSumGeChain_complete rest' ys β X Y x y t nx (hB X List.mem_cons_self)
+      (hB Y (List.mem_cons_of_mem _ List.mem_cons_self))
+      (fun Z hZ => hB Z (List.mem_cons_of_mem _ (List.mem_cons_of_mem _ hZ))) hnx
+      hr.1 hr.2.1 hr.2.2 (by simp only [List.sum_cons] at hsum; omega)
+
+theorem encLinear_mono (ts : List (EVar × Int)) (const : Int) (isNe : Bool) (nx : Nat) :
+    nx ≤ (encLinear ts const isNe nx).2 := by
+  unfold encLinear
+  split
+  · exact Nat.le_refl _
+  · exact Nat.le_refl _
+  · exact encLinearChain_mono _ _ _ _ _ _ _ _
+
+theorem encLinear1_iff {β : Nat → Bool} {X : EVar} {a x const : Int} {isNe : Bool}
+    (hX : 0 < X.base) (ha : a ≠ 0) (hx : Rep β X x) :
+    cnfTrue β (if (-const) % a == 0 then
+        (if isNe then encNeConst X ((-const) / a) else encEqConst X ((-const) / a))
+      else if isNe then [] else [[]]) = true ↔ relHolds isNe (a * x + const) := by
+  unfold relHolds
+  by_cases hm : (-const) % a = 0
+  · have hd : a ∣ -const := Int.dvd_of_emod_eq_zero hm
+    have hq := Int.mul_ediv_cancel' hd
+    have key : x = (-const) / a ↔ a * x + const = 0 := by
+      constructor
+      · intro h; rw [h]; linarith
+      · intro h
+        have h1 : a * x = a * ((-const) / a) := by linarith
+        exact Int.eq_of_mul_eq_mul_left ha h1
+    simp only [hm, beq_self_eq_true, if_true]
+    cases isNe
+    · simp only [Bool.false_eq_true, if_false]
+      rw [encEqConst_iff hX hx]; exact key
+    · simp only [if_true]
+      rw [encNeConst_iff hX hx]; exact not_congr key
+  · have hb : ((-const) % a == 0) = false := by simpa using hm
+    have hne : a * x + const ≠ 0 := by
+      intro h
+      apply hm
+      have : -const = a * x := by linarith
+      rw [this, Int.mul_emod_right]
+    simp only [hb, Bool.false_eq_true, if_false]
+    cases isNe
+    · simp [cnfTrue_empty_clause, hne]
+    · simp [cnfTrue_nil, hne]
+
+theorem encLinear_sound {β : Nat → Bool} {ts : List (EVar × Int)} {zs : List Int} {const : Int}
+    {isNe : Bool} {nx : Nat} (hpos : ∀ p ∈ ts, 0 < p.1.base) (hnx : 0 < nx) (hc : ∀ p ∈ ts, p.2 ≠ 0)
+    (hr : RepL β (ts.map (·.1)) zs) (h : cnfTrue β (encLinear ts const isNe nx).1 = true) :
+    relHolds isNe (dot ts zs + const) := by
+  unfold encLinear at h
+  match ts, zs, hr with
+  | [], [], _ =>
+    simp only at h
+    unfold relHolds
+    cases isNe <;> by_cases hk : const = 0 <;> simp_all [dot, cnfTrue_empty_clause]
+  | [(X, a)], [x], hr =>
+    simp only at h
+    have := (encLinear1_iff (hpos (X, a) List.mem_cons_self) (hc (X, a) List.mem_cons_self) hr.1).1 h
+    simpa [dot] using this
+  | (X, a) :: (Y, b) :: rest, x :: y :: zs', hr =>
+    simp only at h
+    have := encLinearChain_sound rest zs' X a Y b x y const isNe nx (hpos (X, a) List.mem_cons_self)
+      (hpos (Y, b) (List.mem_cons_of_mem _ List.mem_cons_self))
+      (fun p hp => hpos p (List.mem_cons_of_mem _ (List.mem_cons_of_mem _ hp))) hnx
+      (hc (Y, b) (List.mem_cons_of_mem _ List.mem_cons_self))
+      (fun p hp => hc p (List.mem_cons_of_mem _ (List.mem_cons_of_mem _ hp)))
+      hr.1.marks hr.2.1 hr.2.2 h
+    have e : dot ((X, a) :: (Y, b) :: rest) (x :: y :: zs') + const
+        = a * x + b * y + dot rest zs' + const := by
+      simp only [dot, List.zipWith_cons_cons, List.sum_cons]; ring
+    rw [e]; exact this
+
+theorem encLinear_complete {β : Nat → Bool} {ts : List (EVar × Int)} {zs : List Int} {const : Int}
+    {isNe : Bool} {nx : Nat} (hB : ∀ p ∈ ts, p.1.Below nx) (hnx : 0 < nx) (hc : ∀ p ∈ ts, p.2 ≠ 0)
+    (hr : RepL β (ts.map (·.1)) zs) (hrel : relHolds isNe (dot ts zs + const)) :
+    ∃ β₁, AgreeBelow nx β β₁ ∧
+      ∀ β₂, AgreeBelow (encLinear ts const isNe nx).2 β₁ β₂ →
+        cnfTrue β₂ (encLinear ts const isNe nx).1 = true := by
+  unfold encLinear
+  match ts, zs, hr with
+  | [], [], _ =>
+    refine ⟨β, AgreeBelow.refl _ _, fun β₂ _ => ?_⟩
+    unfold relHolds at hrel
+    cases isNe <;> by_cases hk : const = 0 <;> simp_all [dot, cnfTrue_nil]
+  | [(X, a)], [x], hr =>
+    refine ⟨β, AgreeBelow.refl _ _, fun β₂ hag => ?_⟩
+    have hX := hB (X, a) List.mem_cons_self
+    simp only at hag ⊢
+    rw [encLinear1_iff hX.1 (hc (X, a) List.mem_cons_self) (hr.1.of_agree hX hag)]
+    simpa [dot] using hrel
+  | (X, a) :: (Y, b) :: rest, x :: y :: zs', hr =>
+    simp only
+    have e : dot ((X, a) :: (Y, b) :: rest) (x :: y :: zs') + const
+        = a * x + b * y + dot rest zs' + const := by
+      simp only [dot, List.zipWith_cons_cons, List.sum_cons]; ring
+    exact encLinearChain_complete rest zs' β X a Y b x y const isNe nx (hB (X, a) List.mem_cons_self)
+      (hB (Y, b) (List.mem_cons_of_mem _ List.mem_cons_self))
+      (fun p hp => hB p (List.mem_cons_of_mem _ (List.mem_cons_of_mem _ hp))) hnx
+      (hc (Y, b) (List.mem_cons_of_mem _ List.mem_cons_self))
+      (fun p hp => hc p (List.mem_cons_of_mem _ (List.mem_cons_of_mem _ hp)))
+      hr.1 hr.2.1 hr.2.2 (by rw [← e]; exact hrel)
+
 end Solvor.Cp
